@@ -6,18 +6,21 @@ package quickfix
 // This file contains comments only; with the tag off it is not compiled, with the tag on it
 // adds nothing to the binary. Syntax: see /verif/DESIGN.md section 3.
 
-//@ recspec wdec(d []byte, k int) mathint = k <= 0 ? 0 : wrap64(wdec(d, k-1)*10 + d[k-1] - 48)
-//@ spec alldigits(d []byte, k int) bool = forall i :: 0 <= i && i < k ==> 48 <= d[i] && d[i] <= 57
+// Decimal values are specified over absolute positions of the backing array (arr, position), so that
+// re-slicing (d[1:], raw[:s]) does not change the terms the solver sees.
+//@ recspec wdec(a int, p int, n int) mathint = n <= 0 ? 0 : wrap64(wdec(a, p, n-1)*10 + bcell(a, p+n-1) - 48)
+//@ spec digitsA(a int, lo int, hi int) bool = forall j :: lo <= j && j < hi ==> 48 <= bcell(a, j) && bcell(a, j) <= 57
+//@ spec alldigits(d []byte, k int) bool = digitsA(arr(d), off(d), off(d)+k)
 
 //@ func parseUInt [C09,C14]
 //@   ensures @accept (err == nil) <==> (len(d) > 0 && alldigits(d, len(d)))
-//@   ensures @value err == nil ==> n == wdec(d, len(d))
+//@   ensures @value err == nil ==> n == wdec(arr(d), off(d), len(d))
 //@   loop 1 invariant @digits alldigits(d, $i+1)
-//@   loop 1 invariant @acc n == wdec(d, $i+1)
+//@   loop 1 invariant @acc n == wdec(arr(d), off(d), $i+1)
 //@   loop 1 decreases len(d) - $i
 
-//@ spec isint(d []byte) bool = len(d) > 0 && (d[0] == 45 ? (len(d) > 1 && alldigits(d[1:], len(d)-1)) : alldigits(d, len(d)))
-//@ spec intval(d []byte) mathint = d[0] == 45 ? wrap64(0 - wdec(d[1:], len(d)-1)) : wdec(d, len(d))
+//@ spec isint(d []byte) bool = len(d) > 0 && (d[0] == 45 ? (len(d) > 1 && digitsA(arr(d), off(d)+1, off(d)+len(d))) : digitsA(arr(d), off(d), off(d)+len(d)))
+//@ spec intval(d []byte) mathint = d[0] == 45 ? wrap64(0 - wdec(arr(d), off(d)+1, len(d)-1)) : wdec(arr(d), off(d), len(d))
 
 //@ func atoi [C09,C14]
 //@   ensures @accept (result1 == nil) <==> isint(d)
@@ -28,3 +31,52 @@ package quickfix
 //@   ensures @value result == nil ==> *f == intval(bytes)
 //@   ensures @keep result != nil ==> *f == old(*f)
 //@   modifies f
+
+// ---- tag_value.go ---------------------------------------------------------------------
+
+//@ spec noeq(d []byte, k int) bool = forall j :: 0 <= j && j < k ==> d[j] != 61
+//@ spec sepok(raw []byte, s int) bool = 1 <= s && s < len(raw) && raw[s] == 61 && noeq(raw, s) && isint(raw[:s])
+
+//@ func (tv *TagValue) parse [C09,C11]
+//@   requires @nonempty len(rawFieldBytes) >= 1
+//@   requires @lastnoteq rawFieldBytes[len(rawFieldBytes)-1] != 61
+//@   ensures @accept result == nil ==> sepok(rawFieldBytes, len(rawFieldBytes) - len(tv.value) - 2)
+//@   ensures @tag result == nil ==> tv.tag == intval(rawFieldBytes[:len(rawFieldBytes) - len(tv.value) - 2])
+//@   ensures @value result == nil ==> tv.value == rawFieldBytes[len(rawFieldBytes) - len(tv.value) - 1 : len(rawFieldBytes)-1 : len(rawFieldBytes)-1]
+//@   ensures @bytes result == nil ==> tv.bytes == rawFieldBytes[:len(rawFieldBytes):len(rawFieldBytes)]
+//@   ensures @reject result != nil ==> (forall s :: !sepok(rawFieldBytes, s))
+//@   ensures @keep result != nil ==> tv.tag == old(tv.tag) && tv.value == old(tv.value) && tv.bytes == old(tv.bytes)
+//@   modifies tv.*
+
+//@ func (f FIXInt) Write [C14]
+//@   ensures @canon canonint(result) && intval(result) == f
+//@   ensures @fresh fresh(result)
+//@   modifies fresh E.byte
+
+// INV_TV: bytes == decimal(tag) '=' value SOH
+//@ spec tvwf(b []byte, tag Tag, value []byte, k int) bool = 1 <= k && len(b) == k + len(value) + 2 && canonint(b[:k]) && intval(b[:k]) == tag && b[k] == 61 && b[len(b)-1] == 1 && (forall i :: 0 <= i && i < len(value) ==> b[k+1+i] == value[i])
+
+//@ func (tv *TagValue) init [C10]
+//@   ensures @tag tv.tag == tag
+//@   ensures @value tv.value == value
+//@   ensures @len 1 <= len(tv.bytes) - len(value) - 2
+//@   ensures @dec1 digitsA(arr(tv.bytes), off(tv.bytes)+1, off(tv.bytes) + len(tv.bytes) - len(value) - 2)
+//@   ensures @dec2 tv.bytes[0] == 45 || (48 <= tv.bytes[0] && tv.bytes[0] <= 57)
+//@   ensures @dec3 canonint(tv.bytes[:len(tv.bytes) - len(value) - 2])
+//@   ensures @dec4 intval(tv.bytes[:len(tv.bytes) - len(value) - 2]) == tag
+//@   ensures @eq tv.bytes[len(tv.bytes) - len(value) - 2] == 61
+//@   ensures @soh tv.bytes[len(tv.bytes)-1] == 1
+//@   ensures @val forall i :: 0 <= i && i < len(value) ==> tv.bytes[len(tv.bytes) - len(value) - 1 + i] == value[i]
+//@   ensures @fresh fresh(tv.bytes)
+//@   modifies tv.*, fresh E.byte
+
+//@ func bytesTotal [C10]
+//@   ensures @sum total == bsum(arr(bytes), off(bytes), len(bytes))
+//@   loop 1 invariant @acc total == bsum(arr(bytes), off(bytes), $i+1)
+//@   loop 1 decreases len(bytes) - $i
+//@ recspec bsum(a int, p int, n int) mathint = n <= 0 ? 0 : wrap64(bsum(a, p, n-1) + bcell(a, p+n-1))
+
+// ---- lemmas over the recursive spec functions (proved by induction, then used as axioms) ----
+
+//@ lemma wdec_ext [C10,C14]: induction n: forall n int, a1 int, p1 int, a2 int, p2 int :: (forall j :: p1 <= j && j < p1+n ==> old(bcell(a1, j)) == bcell(a2, j-p1+p2)) ==> old(wdec(a1, p1, n)) == wdec(a2, p2, n)
+//@ lemma bsum_ext [C10]: induction n: forall n int, a1 int, p1 int, a2 int, p2 int :: (forall j :: p1 <= j && j < p1+n ==> old(bcell(a1, j)) == bcell(a2, j-p1+p2)) ==> old(bsum(a1, p1, n)) == bsum(a2, p2, n)
